@@ -36,7 +36,11 @@ Proof. intros s H. unfold lift. destruct r; [split; auto|exact I]. Qed.
 Definition same_objects (s s' : gstate) : Prop :=
   g_methods s' = g_methods s /\ g_depths s' = g_depths s /\ g_elements s' = g_elements s.
 
-Definition stable (P : gstate -> Prop) : Prop := forall s s', P s -> same_objects s s' -> P s'.
+(* the script only ever loses a prefix *)
+Definition script_suffix (s s' : gstate) : Prop := exists pre, g_script s = pre ++ g_script s'.
+
+Definition stable (P : gstate -> Prop) : Prop :=
+  forall s s', P s -> same_objects s s' -> script_suffix s s' -> P s'.
 
 Lemma same_objects_refl s : same_objects s s. Proof. repeat split. Qed.
 Lemma same_objects_trans a b c : same_objects a b -> same_objects b c -> same_objects a c.
@@ -44,8 +48,8 @@ Proof. intros (A1 & A2 & A3) (B1 & B2 & B3). repeat split; congruence. Qed.
 
 Lemma next_draw_spec P : stable P -> hoare P next_draw (fun _ s => P s).
 Proof.
-  intros St s H. unfold next_draw. destruct (g_script s); [exact I|].
-  eapply St; [exact H|]. repeat split.
+  intros St s H. unfold next_draw. destruct (g_script s) as [|d tl] eqn:E; [exact I|].
+  eapply St; [exact H|repeat split|]. exists [d]. cbn. exact E.
 Qed.
 
 Ltac draw_tac St :=
@@ -89,11 +93,18 @@ Proof.
   match goal with H1 : (a <=? _) = true, H2 : (_ <=? b) = true |- _ => apply Z.leb_le in H1; apply Z.leb_le in H2; lia end.
 Qed.
 
-Lemma draw_gauss_spec P mu sigma : stable P -> hoare P (draw_gauss mu sigma) (fun _ s => P s).
+Lemma draw_gauss_valid P mu sigma :
+  stable P -> hoare P (draw_gauss mu sigma) (fun x s => P s /\ SpecFloat.valid_binary prec emax x = true).
 Proof.
   intros St. unfold draw_gauss. draw_tac St. unfold mismatch.
-  destruct (fl_eqb mu mu0 && fl_eqb sigma sigma0); [|apply hoare_fail].
-  intros s H. cbn. exact H.
+  destruct (fl_eqb mu mu0 && fl_eqb sigma sigma0 && SpecFloat.valid_binary prec emax x) eqn:E; [|apply hoare_fail].
+  apply andb_prop in E. destruct E as [_ E]. intros s H. cbn. split; [exact H|exact E].
+Qed.
+
+Lemma draw_gauss_spec P mu sigma : stable P -> hoare P (draw_gauss mu sigma) (fun _ s => P s).
+Proof.
+  intros St. eapply hoare_conseq; [intros s H; exact H| |apply draw_gauss_valid; exact St].
+  intros a s [H _]. exact H.
 Qed.
 
 Lemma draw_random_spec P : stable P -> hoare P draw_random (fun _ s => P s).
@@ -473,7 +484,7 @@ Definition method_ok (c : config) (m : method) : Prop := Forall (fun g => instr_
 Definition Inv (c : config) (s : gstate) : Prop := Forall (method_ok c) (g_methods s).
 
 Lemma Inv_stable c : stable (Inv c).
-Proof. intros s s' H (E & _ & _). unfold Inv in *. rewrite E. exact H. Qed.
+Proof. intros s s' H (E & _ & _) _. unfold Inv in *. rewrite E. exact H. Qed.
 
 Lemma fill_body_ok P c n : forall rem,
   stable P -> cfg_facts c ->
